@@ -220,7 +220,7 @@ edition = "2021"
 path = "src/lib.rs"
 
 [dependencies]
-cglue = {{ path = "{repo}/cglue", features = ["task"] }}
+cglue = {{ path = "{repo}/cglue", features = ["task", "futures"] }}
 pbsupport = {{ path = "{root}/harness/pbsupport" }}
 
 [workspace]
@@ -253,6 +253,12 @@ extern "C" {
     pub fn rt_fwd(a: &Fwd<&'static mut c_void>, b: &Fwd<CBox<'static, c_void>>);
     pub fn rt_waker(a: &cglue::task::CRefWaker<'static>);
     pub fn rt_container(a: &cglue::trait_group::CGlueObjContainer<CBox<'static, c_void>, CArc<c_void>, cglue::trait_group::NoContext>);
+    // objects of the built-in external traits (their vtables are generated inside the runtime crate)
+    pub fn rt_ext_clone(a: &cglue::ext::CloneBox<'static>, b: &cglue::ext::CloneArcBox<'static>);
+    pub fn rt_ext_fmt(a: &cglue::ext::core::fmt::DebugBox<'static>, b: &cglue::ext::core::fmt::DisplayBox<'static>);
+    pub fn rt_ext_asref(a: &cglue::ext::core::convert::AsRefBox<'static, u64>);
+    pub fn rt_ext_future(a: &cglue::ext::core::future::FutureBox<'static, u64>, b: &cglue::ext::core::future::FutureArcBox<'static, Pod1>);
+    pub fn rt_ext_stream(a: &cglue::ext::futures::stream::StreamBox<'static, u32>, b: &cglue::ext::futures::sink::SinkBox<'static, u32, u8>);
 }
 """
 
@@ -265,7 +271,9 @@ def write_lint_crate(d, ids, group_ids):
     os.makedirs(os.path.join(d, "src"), exist_ok=True)
     write_if_changed(os.path.join(d, "Cargo.toml"), LINT_CARGO.format(repo=REPO, root=ROOT))
     lock = os.path.join(d, "Cargo.lock")
-    if not os.path.exists(lock):
+    # (cargo prunes the lock to what the crate needs; when the crate's features grow, start again
+    # from the harness lock, which pins every crate of the offline cache that is used anywhere)
+    if not os.path.exists(lock) or 'name = "futures"' not in open(lock).read():
         open(lock, "w").write(open(os.path.join(ROOT, "harness", "Cargo.lock")).read())
     lib = ["// the property's own yardstick: the compiler's FFI-safety lints, denied, on expansions that are",
            "// now ordinary local source (so the suppression for external-macro spans does not apply)",
